@@ -394,6 +394,7 @@ class SimWorld(Cluster):
                                            packet_loss_rate=loss)
                     self.net.add_link(a, b, link)
         self.steps = []
+        self.down = set()
         self.nops = 0
         self.events_seen = 0
         self.sim = None
@@ -448,10 +449,14 @@ class SimWorld(Cluster):
         self.events_seen += 1
         tgt = event.target
         et = event.event_type
-        if et.startswith("fault.crash:") or et.startswith("fault.pause:"):
-            self.steps.append({"a": "X", "n": self.idx[et.split(":", 1)[1]]})
-        elif et.startswith("fault.restart:") or et.startswith("fault.resume:"):
-            self.steps.append({"a": "R", "n": self.idx[et.split(":", 1)[1]]})
+        if et.startswith("fault."):
+            # crash/pause windows may overlap (the node stays down until the last one ends): record the
+            # transitions of the flag Event.invoke really looks at, not the fault events
+            for j, nd in self.nodes.items():
+                now_down = bool(getattr(nd, "_crashed", False))
+                if now_down != (j in self.down):
+                    self.steps.append({"a": "X" if now_down else "R", "n": j})
+                    (self.down.add if now_down else self.down.discard)(j)
         elif getattr(tgt, "name", None) in self.idx and tgt is self.nodes[self.idx[tgt.name]] \
                 and getattr(tgt, "_crashed", False):
             i = self.idx[tgt.name]
